@@ -14,7 +14,7 @@ open VL VL.Condorcet VL.C10
 
 theorem isTie_ren (σ : Cand → Cand) (s : Slot) : isTie (renSlot σ s) = isTie s := by cases s <;> rfl
 
-theorem slotsEquiv_prepend (e : List Cand) {A B : List Slot} (h : SlotsEquiv A B) :
+theorem cop2_slotsEquiv_prepend (e : List Cand) {A B : List Slot} (h : SlotsEquiv A B) :
     SlotsEquiv (e.map Slot.cand ++ A) (e.map Slot.cand ++ B) := by
   obtain ⟨e₁, e₂, T₁, T₂, m, rfl, rfl, he, hT⟩ := h
   exact ⟨e ++ e₁, e ++ e₂, T₁, T₂, m, by rw [List.map_append, List.append_assoc],
@@ -126,7 +126,7 @@ theorem copeland_true_ren (σ : Cand → Cand) (hσ : Function.Injective σ) (v 
     rw [hl1, hl2, hf1, hf2]
     have hsos := getNBest_perm _ _ (sosOf_ren_perm σ hσ (getNBest S n) S (pairwiseWins v false)) m
     rw [getNBest_rename] at hsos
-    exact slotsEquiv_prepend _ hsos
+    exact cop2_slotsEquiv_prepend _ hsos
   · rw [hshape, map_renSlot_shape]
     exact ⟨e.map σ, e.map σ, T.map σ, T.map σ, m, rfl, rfl, List.Perm.refl _, List.Perm.refl _⟩
 
